@@ -43,7 +43,7 @@ FUNCTIONS = [
 ]
 BOUNDS = {
     "quick": dict(draw_batches="<=2 per request (a rejected batch is redrawn once)", dimensions=1, store="1..2 samples", existing_flows="0..1", batch="1 new sample per store", reparameterisation=["none", "logit (regular region eps <= x <= 1-eps): draw with 1..2 flows and one iteration from a one-sample store without the independent set"], independent_set=[False, True]),
-    "thorough": dict(draw_batches="<=2 per request", dimensions="1..2", store="1..3 samples", existing_flows="0..2", batch="1..2", reparameterisation=["none", "logit (regular region eps <= x <= 1-eps)"], independent_set=[False, True]),
+    "thorough": dict(draw_batches="<=2 per request", dimensions="1..2", store="1..3 samples (1..2 with the independent set)", existing_flows="0..2", batch="1..2", reparameterisation=["none", "logit (regular region eps <= x <= 1-eps)"], independent_set=[False, True]),
 }
 SCOPE = ("Densities q_j are uninterpreted functions of the prime-space point, so 'the stored density equals the proposal re-evaluated at the sample' is decided as alignment of rows, columns and Jacobian terms for every density.")
 ASSUMPTIONS = [
@@ -427,6 +427,8 @@ def units(tier):
             for (m, nf) in ([(1, 0), (2, 1)] if q else [(1, 0), (2, 1), (3, 1), (2, 0)]):
                 if reparam == "logit" and (iid or (m, nf) != (1, 0)):
                     continue   # the full exp axioms make larger logit iterations inconclusive within 15 minutes: not claimed
+                if iid and m >= 3:
+                    continue   # > 35 000 paths: not exhausted within 15 minutes on 16 cores (214 subtrees left): not claimed
                 big = iid and (m, nf) == (2, 1)   # ~10 minutes single-threaded: explored with engine-level parallelism
                 us.append(Unit(f"iteration[m={m},flows_before={nf},{reparam},iid={iid}]", make_iteration(1, m, nf, reparam, iid), MODS, nl, expect_cover=["end"],
                                mutants=["column"] if (m, nf, reparam, iid) == (2, 1, None, False) else [], twin_runs=8, witness_every=5 if not big else 100, setup=setup,
